@@ -16,7 +16,7 @@ Definition obs := list sobs.
 Definition case := (input * obs)%type.
 
 (* the engine starts with the root database "test" = class 0, spelling 2 (lower case) *)
-Definition init : pstate := {| live := [(0, (2, [1000]))]; dropped := [] |}.
+Definition init : pstate := {| live := [(0, (2, [1000]))]; dropped := []; root := Some 0 |}.
 
 Definition name_ltb (a b : name) : bool := (fst a <? fst b) || ((fst a =? fst b) && (snd a <? snd b)).
 
@@ -102,9 +102,12 @@ Definition others_same (i : N) (p n : sobs) : bool :=
 
 Definition same_live (p n : sobs) : bool := live_eqb (o_live p) (o_live n).
 
+(* same database: the class of the name and the fingerprint.  The spelling of the restored
+   name is not part of the property (names are case-insensitive in SQL); it is compared
+   between model and implementation. *)
 Definition ent_eqb (a b : option (name * N)) : bool :=
   match a, b with
-  | Some (n, f), Some (n', f') => name_eqb n n' && (f =? f')
+  | Some (n, f), Some (n', f') => (fst n =? fst n') && (f =? f')
   | None, None => true
   | _, _ => false
   end.
@@ -125,10 +128,21 @@ Definition prop_step (p : sobs) (g : pile N) (o : op) (n : sobs) : bool :=
   | Purge => same_live p n
   end.
 
+(* the name a dropped database is held under: the entry of its class that is new in the
+   holding directory, else (a second generation of the same exact name) its live name *)
+Definition held_name (p n : sobs) (e : name) : name :=
+  match find (fun x => (fst x =? fst e) && negb (existsb (name_eqb x) (o_dropped p))) (o_dropped n) with
+  | Some x => x
+  | None => e
+  end.
+
 Definition next_pile (p : sobs) (g : pile N) (o : op) (n : sobs) : pile N :=
   if negb (o_ok n) then g
   else match o with
-       | Drop m a => match live_of p (fst m) with Some (e, f) => (e, f) :: rename_gen e a g | None => g end
+       | Drop m a => match live_of p (fst m) with
+                     | Some (e, f) => let h := held_name p n e in (h, f) :: rename_gen h a g
+                     | None => g
+                     end
        | Undrop m => match latest (fst m) g with Some (e, _) => take_out e g | None => g end
        | Purge => []
        | _ => g
